@@ -10,7 +10,7 @@ import gen
 import impl
 from core import Scratch, cN, cbool, clist, cnat, cstr
 
-DOCS = ["# a\n", "#  a\n", "a  \n", "a   \n", "#  a\n\nb   \n", "a\tb\n", "a", "# a\n\n- x\n* y\n", "1. a\n1. b\n3. c\n", "# a\n\n### b\n", "text\n```\ncode\n```\ntext\n",
+DOCS = ["1. one\n3.  three\nx  \n", "1. one\n3.  three\n\ty\n", "1. one\n2.  two\n3. three  \n", "# a\n", "#  a\n", "a  \n", "a   \n", "#  a\n\nb   \n", "a\tb\n", "a", "# a\n\n- x\n* y\n", "1. a\n1. b\n3. c\n", "# a\n\n### b\n", "text\n```\ncode\n```\ntext\n",
         "a\n\n\n\nb\n", "**a** __b__\n", "- a\n   - b\n", "** a **\n", "---\n\n***\n", "> a\n>  b\n", "10. x\n", "a  \nb\n", "```\nx\n```\n\n~~~\ny\n~~~\n", "", "\n", "# a #\n",
         "\ta\n", "* a\n+ b\n", "#  a  #\n", "a\n# b\n", "[ a ](/u)\n", "` a `\n", "<!-- pyml disable-next-line md019-->\n#  a\n"]
 SCHEMES = {"default": [], "minimal": ["--return-code-scheme", "minimal"]}
@@ -163,8 +163,13 @@ def run(ctx):
         names = [f"f{i}.md" for i in range(1, len(ds) + 1)]
         ctx.count(1, f"fix/files{len(ds)}/{scheme}")
         inp = {"docs": list(ds), "scheme": scheme}
-        if code == 1:                       # an application error (rule conflict, parser failure): C15/C09's business
-            ctx.unit("skipped", runs_with_application_error=1)
+        if code == 1:                       # an application error (rule conflict, parser failure): what is reported is C15's business,
+            ctx.unit("skipped", runs_with_application_error=1)   # but 'bytes change only if announced' holds for such a run as well
+            said = re.findall(r"^Fixed: (f\d\.md)$", out, re.M)
+            for n, t, a in zip(names, ds, after):
+                if a != t and n not in said:
+                    ctx.violation("announce", {"doc": t}, f"the run ended with an application error ({err.strip()[:160]!r}); the file was rewritten to {a!r} and not announced as fixed",
+                                  group="announce-silent-change-on-error")
             continue
         fixed_lines = re.findall(r"^Fixed: (f\d\.md)$", out, re.M)
         changed = [n for n, t, a in zip(names, ds, after) if a != t]
